@@ -38,16 +38,22 @@ def gen_case(rng):
                 defs.append((len(lines), "label", l))
                 lines.append("%s:" % vary(rng, l))
         k = rng.random()
+        # symbol directives take effect in whatever segment they are written: sometimes inside a .dseg / .eseg stretch
+        wrap = rng.choice([None, None, None, ".dseg", ".eseg"])
+        sym_lines = []
         if k < 0.2:
             cur_set = rng.randrange(0, 500) if cur_set is None else cur_set + rng.randrange(1, 9)
-            lines.append(".set %s = %d" % (vary(rng, setname), cur_set))
-            # a .set line emits nothing: add an item so that the item count is right
+            sym_lines.append(".set %s = %d" % (vary(rng, setname), cur_set))
         if k < 0.35 and alias is None:
             alias = ("Tmp", rng.choice([16, 17, 30]))
-            lines.append(".def %s = r%d" % (vary(rng, alias[0]), alias[1]))
+            sym_lines.append(".def %s = r%d" % (vary(rng, alias[0]), alias[1]))
         elif k < 0.45 and alias is not None:
-            lines.append(".undef %s" % vary(rng, alias[0]))
+            sym_lines.append(".undef %s" % vary(rng, alias[0]))
             alias = None
+        if sym_lines and wrap:
+            lines += [wrap] + sym_lines + [".cseg"]
+        else:
+            lines += sym_lines
         # the item: one word
         c = rng.random()
         if c < 0.3:
@@ -102,6 +108,9 @@ def run(res):
         (" .dw fwd\nnop\nfwd: nop\n", ("OK", "020000000000"), "label-forward"),
         ("a: nop\nA: nop\n", ("ERR",), "duplicate-label-case"),
         (".equ k = 3\n .dw K, k\n", ("OK", "03000300"), "equ-case"),
+        (".def tmp = r16\n.dseg\n.undef tmp\n.cseg\n mov tmp, r1\n", ("ERR",), "undef-in-dseg"),
+        (".set v = 1\n.dseg\n.set v = 2\n.cseg\n .dw v\n", ("OK", "0200"), "set-in-dseg"),
+        (".eseg\n.def cnt = r20\n.cseg\n mov cnt, r1\n", ("OK", "412d"), "def-in-eseg"),
     ]
     cases += fixed
     texts = [c[0] for c in cases]
